@@ -450,7 +450,8 @@ pub fn run(ctx: &Ctx) -> Report {
          (all levels, empty/Unicode/syntax-character messages, absent module/file/line, MDC present/absent) on a named and on an unnamed thread; \
          bytes and style events must equal the reference renderer's. Non-trivial = pattern with at least one formatter (distinct patterns counted by their syntax)",
     );
-    let groups = generate(ctx.tier);
+    // the generator's thorough domain is cheap enough for every run
+    let groups = generate(Tier::Thorough);
     let recs = records();
     let mut notes = vec![];
     let evals = AtomicU64::new(0);
